@@ -5,6 +5,10 @@
 // Data are canonicalised to key+1 after every transition through the public iterator (CO_Tree never
 // branches on data); data-dependent row operations (linear_combine, combine*, normalize) are run
 // from every state with every member of a fixed menu of data patterns.
+// Hints: every live position and end() -- hence "wrong" hints arbitrarily far from / on the wrong side of the
+// key.  Iterators that a mutation has invalidated are never passed (documented precondition), except the ones the
+// documentation declares still valid (fast_shift, fast_swap, add_zeroes_and_shift, the end() reference), which
+// are re-checked after those calls.
 #include "harness/c16_bfs.hh"
 #include "ppl-config.h"
 #include "version.hh"
@@ -243,11 +247,15 @@ struct TreeModel {
     int a = opa(op), b = opb(op), c = opc(op);
     std::vector<unsigned> ks = keys_of(m);
     bool have_it = false; Tree::iterator rit; bool exp_end = false; unsigned exp_key = 0;
+    bool check_hint = false; std::string hint_free_key;
     switch (opk(op)) {
       case T_INS: rit = t.insert((dim_t)a); if (!m.count(a)) m[a] = 0; have_it = true; exp_key = a; break;
       case T_INSV: rit = t.insert((dim_t)a, mpz_class(VNEW)); m[a] = VNEW; have_it = true; exp_key = a; break;
-      case T_INSH: rit = t.insert(nth(t, a), (dim_t)b); if (!m.count(b)) m[b] = 0; have_it = true; exp_key = b; break;
-      case T_INSHV: rit = t.insert(nth(t, a), (dim_t)b, mpz_class(VNEW)); m[b] = VNEW; have_it = true; exp_key = b; break;
+      // "the value of itr does not affect the result of this method": the layout must be the one of the un-hinted insert
+      case T_INSH: { Tree plain(t); plain.insert((dim_t)b); hint_free_key = tree_key(plain); check_hint = true;
+        rit = t.insert(nth(t, a), (dim_t)b); if (!m.count(b)) m[b] = 0; have_it = true; exp_key = b; break; }
+      case T_INSHV: { Tree plain(t); plain.insert((dim_t)b, mpz_class(VNEW)); hint_free_key = tree_key(plain); check_hint = true;
+        rit = t.insert(nth(t, a), (dim_t)b, mpz_class(VNEW)); m[b] = VNEW; have_it = true; exp_key = b; break; }
       case T_INSA: {
         Tree::iterator src = nth(t, a);
         const Tree::iterator& csrc = src;
@@ -258,6 +266,7 @@ struct TreeModel {
         Tree::iterator src = nth(t, b);
         const Tree::iterator& csrc = src;
         mpz_class v = m[ks[b]];
+        { Tree plain(t); plain.insert((dim_t)c, v); hint_free_key = tree_key(plain); check_hint = true; }
         rit = t.insert(nth(t, a), (dim_t)c, *csrc);
         m[c] = v; have_it = true; exp_key = c; break; }
       case T_ERK: {
@@ -327,6 +336,7 @@ struct TreeModel {
       if (exp_end) { if (rit != t2.end()) { f->put(st, "return:iterator", it_str(t2, rit), "end()"); return false; } }
       else if (!it_at(t2, rit, exp_key, m[exp_key])) { f->put(st, "return:iterator", it_str(t2, rit), "key " + std::to_string(exp_key) + " value " + zs(m[exp_key]), tree_dump(t2)); return false; }
     }
+    if (check_hint && tree_key(t2) != hint_free_key) { f->put(st, "hint-independence:layout-differs-from-unhinted-insert", key_layout_str(tree_key(t2)), key_layout_str(hint_free_key)); return false; }
     canon(o);
     return true;
   }
@@ -427,7 +437,7 @@ static int explore(M& model, const std::string& tag, const std::string& bound) {
   J extra; extra.num("distinct_layouts", (long long)n).num("mutator_calls_checked", counter(CNT_TRANS) - counter(c16::CNT_LOOKUPS))
     .num("observer_calls_checked", counter(c16::CNT_LOOKUPS)).num("bfs_levels", ex.levels).num("longest_shortest_history", maxdepth)
     .num("histories_replayed_and_matched", counter(c16::CNT_REPLAYS)).num("replayed_calls", counter(c16::CNT_REPLAY_OPS))
-    .num("violating_transitions", counter(c16::CNT_VIOL_TRANS)).num("items_skipped_by_deadline", counter(CNT_SKIPPED))
+    .num("violating_transitions", counter(c16::CNT_VIOL_TRANS)).num("transitions_matching_a_known_finding_trigger_successor_not_expanded", counter(c16::CNT_TRIG_TRANS)).num("items_skipped_by_deadline", counter(CNT_SKIPPED))
     .raw("layouts_by_tree_height", heights.done());
   J st; st.str("t", "stats").num("states", (long long)n).num("transitions", counter(CNT_TRANS))
     .num("traces_validated_against_impl", counter(c16::CNT_REPLAYS)).boolean("exhaustive", exhaustive)
